@@ -58,6 +58,12 @@ impl RunOut {
         self.states.insert(s);
     }
     pub fn viol(&mut self, check_id: &str, signature: String, detail: String, plan: Option<Value>) {
+        // the RNG device's own liveness bound surfaces as an unwind; it is a non-termination, not a panic
+        let check_id = if check_id == "C11/unexpected-panic" && (signature.contains(crate::monitor::LIVELOCK_MARK) || detail.contains(crate::monitor::LIVELOCK_MARK)) {
+            "C11/non-termination"
+        } else {
+            check_id
+        };
         // one report per (check, signature) per run is enough
         if self.viols.iter().any(|v| v.check_id == check_id && v.signature == signature) {
             return;
